@@ -39,6 +39,17 @@ func pairs(a []*big.Int, slots int, ci bool, prec uint) []*bignum.Complex {
 	return z
 }
 
+// ckksRound is one ciphertext sent through the (re-used) protocol instances of a refresh / transform case.
+type ckksRound struct {
+	m       *ckksMsg
+	levelE  int
+	levelO  int
+	merges  []Merge
+	outMode int
+	seed    uint64
+	first   bool
+}
+
 func runCKKSRefreshBody(c CKKSCase, rec *h.Rec) error {
 	if c.Mode != "refresh" && c.Mode != "transform" {
 		return nil
@@ -51,18 +62,47 @@ func runCKKSRefreshBody(c CKKSCase, rec *h.Rec) error {
 	} else if !c.Batched {
 		return nil
 	}
+	otherParams := c.Out != nil
+	if otherParams && !isT {
+		return nil
+	}
 	x, err := setupCKKS(c, true, rec)
 	if x == nil || err != nil {
 		return err
 	}
-	params, n, ct := x.params, c.Parties, x.ct
+	params, n := x.params, c.Parties
 	ci := params.RingType() == ring.ConjugateInvariant
 	slots := 1 << c.LogSlots
 	prec := x.logBound + uint(c.PrecExtra)
+	if prec < 64 {
+		// a precision <= 53 makes ckks.Encoder use float64 roots, and the protocol's FFT/IFFT on big complex numbers then
+		// returns an error ("values.(type) doesn't roots.(type)"): only reachable with lambda < 64, not a message failure
+		prec = 64
+	}
+
+	paramsOut := params
+	oSpec := c.outSpec()
+	if otherParams {
+		maxOut := oSpec.LogN - 1
+		if oSpec.CI {
+			maxOut = oSpec.LogN
+		}
+		if c.LogSlots > maxOut || oSpec.LogN < 4 || oSpec.LogScale < 10 || oSpec.LogScale > 50 {
+			return nil
+		}
+		if paramsOut, err = oSpec.Build(); err != nil {
+			return nil
+		}
+		rec.Classf("paramsOut:logN%+d", oSpec.LogN-c.Params.LogN)
+		if c.WithParams {
+			rec.Class("via-WithParams")
+		}
+	}
+	gapOut := paramsOut.N() / x.dslots
 
 	outKeys := x.in
-	if isT && c.NewKey {
-		outKeys = newKeySet(params.Parameters, n, nil)
+	if isT && (c.NewKey || otherParams) {
+		outKeys = newKeySet(paramsOut.Parameters, n, nil)
 	}
 	var tf *mpckks.MaskedLinearTransformationFunc
 	var f cLinFunc
@@ -77,52 +117,17 @@ func runCKKSRefreshBody(c CKKSCase, rec *h.Rec) error {
 	rec.Classf("outMode=%d", c.OutMode)
 	rec.Classf("precExtra=%d", c.PrecExtra)
 
-	// ---- model: expected integer plaintext of the output -------------------------------------------------------------
-	D := new(big.Float).SetPrec(512).SetMantExp(big.NewFloat(1), c.Params.LogScale) // default scale 2^LogScale
-	S := new(big.Float).SetPrec(512).SetInt(x.scale)
-	ratio := new(big.Float).SetPrec(512).Quo(D, S)
-	want := make([]*big.Float, x.dslots)
-	gain := 1.0
-	if tf == nil {
-		for j := range want {
-			want[j] = new(big.Float).SetPrec(512).SetInt(x.a[j])
-		}
-	} else {
-		ecd := ckks.NewEncoder(params, 512)
-		z := pairs(x.a, slots, ci, 512)
-		if c.Decode {
-			if err := ecd.FFT(z, c.LogSlots); err != nil {
-				return h.Failf("C16:setup:FFT", "%v", err)
-			}
-			gain *= float64(x.dslots)
-		}
-		f.apply(z)
-		if c.Encode {
-			if err := ecd.IFFT(z, c.LogSlots); err != nil {
-				return h.Failf("C16:setup:IFFT", "%v", err)
-			}
-			gain *= 2
-		}
-		for j := 0; j < slots; j++ {
-			want[j] = new(big.Float).SetPrec(512).Set(z[j][0])
-			if !ci {
-				want[j+slots] = new(big.Float).SetPrec(512).Set(z[j][1])
-			}
-		}
-	}
-	for j := range want {
-		want[j].Mul(want[j], ratio)
-	}
-	ratioF, _ := ratio.Float64()
-	precTerm := float64(n+1) * math.Exp2(-float64(c.PrecExtra)) * gain * 16 * float64(c.LogSlots+2) * ratioF
-	tol := 2*gain*(x.bCt+float64(n)*x.bParty)*ratioF + float64(n)*x.bParty + float64(n+2) + precTerm + 2
-	tolOff := float64(n) * x.bParty
-
-	// ---- protocol ----------------------------------------------------------------------------------------------------
+	// ---- protocol instances (created once, used for every ciphertext of the case) ---------------------------------------
 	var mltp0 mpckks.MaskedLinearTransformationProtocol
 	var rfp0 mpckks.RefreshProtocol
 	if isT {
-		if mltp0, err = mpckks.NewMaskedLinearTransformationProtocol(params, params, prec, x.noise); err != nil {
+		if c.WithParams && otherParams {
+			base, err := mpckks.NewMaskedLinearTransformationProtocol(params, params, prec, x.noise)
+			if err != nil {
+				return h.Failf("C16:mpckks:NewMaskedLinearTransformationProtocol:error", "%v", err)
+			}
+			mltp0 = base.WithParams(paramsOut)
+		} else if mltp0, err = mpckks.NewMaskedLinearTransformationProtocol(params, paramsOut, prec, x.noise); err != nil {
 			return h.Failf("C16:mpckks:NewMaskedLinearTransformationProtocol:error", "%v", err)
 		}
 	} else {
@@ -131,191 +136,301 @@ func runCKKSRefreshBody(c CKKSCase, rec *h.Rec) error {
 		}
 		mltp0 = rfp0.MaskedLinearTransformationProtocol
 	}
-	proto := func(i int) mpckks.MaskedLinearTransformationProtocol {
+	inst := make([]mpckks.MaskedLinearTransformationProtocol, n)
+	for i := range inst {
 		if i == 0 || !c.Shallow {
-			return mltp0
-		}
-		return mltp0.ShallowCopy()
-	}
-	crp := mltp0.SampleCRP(c.LevelO, x.crs)
-	ctOrig := ct.CopyNew()
-	shares := make([]multiparty.RefreshShare, n)
-	for i := 0; i < n; i++ {
-		p := proto(i)
-		shares[i] = p.AllocateShare(c.LevelE, c.LevelO)
-		if isT {
-			err = p.GenShare(x.in.shares[i], outKeys.shares[i], x.logBound, ct, crp, tf, &shares[i])
+			inst[i] = mltp0
 		} else {
-			err = mpckks.RefreshProtocol{MaskedLinearTransformationProtocol: p}.GenShare(x.in.shares[i], x.logBound, ct, crp, &shares[i])
-		}
-		if err != nil {
-			return h.Failf("C16:mpckks:"+c.Mode+":GenShare:error", "%v", err)
+			inst[i] = mltp0.ShallowCopy()
 		}
 	}
-	if !ct.Equal(ctOrig) {
-		return h.Failf("C16:mpckks:"+c.Mode+":GenShare:input-modified", "GenShare modified the input ciphertext")
-	}
-	// smudging lower bound on refresh shares (see the mpbgv twin): when the ciphertext scale equals the default scale the
-	// rescaled mask is the mask itself and cancels between the two halves of an identity-transform share.
-	if c.ScaleMul == 1 {
-		lc := c.LevelE
-		if c.LevelO < lc {
-			lc = c.LevelO
-		}
-		ringC := params.RingQ().AtLevel(lc)
-		residual := func(i int, sh multiparty.RefreshShare) []*big.Int {
-			r := ringC.NewPoly()
-			ringC.Add(sh.EncToShareShare.Value, sh.ShareToEncShare.Value, r)
-			ringC.MulCoeffsMontgomeryThenSub(ct.Value[1], x.in.shares[i].Value.Q, r)
-			ringC.MulCoeffsMontgomeryThenAdd(crp.Value, outKeys.shares[i].Value.Q, r)
-			ringC.INTT(r, r)
-			ringC.Reduce(r, r)
-			return centered(ringC, r)
-		}
-		var pools smudgePools
-		collect := func(k int, r []*big.Int) error {
-			if infNorm(r).Cmp(bigF(2*x.bParty)) > 0 {
-				return h.Failf("C16:mpckks:"+c.Mode+":GenShare:noise-above-bound", "refresh-share noise 2^%.1f exceeds the hard bound %g (sigma=%g)", log2Big(infNorm(r)), 2*x.bParty, c.Sigma)
+	skSnap := x.in.shares[0].Value.Q.CopyNew()
+	skOutSnap := outKeys.shares[0].Value.Q.CopyNew()
+	ecd512 := ckks.NewEncoder(params, 512)
+	D := new(big.Float).SetPrec(512).SetMantExp(big.NewFloat(1), oSpec.LogScale) // default scale of the output parameters
+	Df, _ := D.Float64()
+
+	var prevOut *rlwe.Ciphertext
+	var lastTol float64
+
+	round := func(r ckksRound) error {
+		m, ct := r.m, r.m.ct
+		precExtra := float64(prec) - float64(m.logBound) // the second ciphertext may have one more mask bit
+
+		// ---- model: expected integer plaintext of the output ---------------------------------------------------------
+		S := new(big.Float).SetPrec(512).SetInt(m.scale)
+		ratio := new(big.Float).SetPrec(512).Quo(D, S)
+		want := make([]*big.Float, x.dslots)
+		gain := 1.0
+		if tf == nil {
+			for j := range want {
+				want[j] = new(big.Float).SetPrec(512).SetInt(m.a[j])
 			}
-			pools.add(k, r)
-			return nil
-		}
-		if !isT {
-			for i := range shares {
-				k := 1
-				if i == 0 || !c.Shallow {
-					k = 0
+		} else {
+			z := pairs(m.a, slots, ci, 512)
+			if c.Decode {
+				if err := ecd512.FFT(z, c.LogSlots); err != nil {
+					return h.Failf("C16:setup:FFT", "%v", err)
 				}
-				if err := collect(k, residual(i, shares[i])); err != nil {
+				gain *= float64(x.dslots)
+			}
+			f.apply(z)
+			if c.Encode {
+				if err := ecd512.IFFT(z, c.LogSlots); err != nil {
+					return h.Failf("C16:setup:IFFT", "%v", err)
+				}
+				gain *= 2
+			}
+			for j := 0; j < slots; j++ {
+				want[j] = new(big.Float).SetPrec(512).Set(z[j][0])
+				if !ci {
+					want[j+slots] = new(big.Float).SetPrec(512).Set(z[j][1])
+				}
+			}
+		}
+		for j := range want {
+			want[j].Mul(want[j], ratio)
+		}
+		ratioF, _ := ratio.Float64()
+		precTerm := float64(n+1) * math.Exp2(-precExtra) * gain * 16 * float64(c.LogSlots+2) * ratioF
+		tol := 2*gain*(x.bCt+float64(n)*x.bParty)*ratioF + float64(n)*x.bParty + float64(n+2) + precTerm + 2
+		tolOff := float64(n) * x.bParty
+		lastTol = tol
+
+		crp := mltp0.SampleCRP(r.levelO, x.crs)
+		crpSnap := crp.Value.CopyNew()
+		ctOrig := ct.CopyNew()
+		shares := make([]multiparty.RefreshShare, n)
+		for i := 0; i < n; i++ {
+			p := inst[i]
+			shares[i] = p.AllocateShare(r.levelE, r.levelO)
+			if isT {
+				err = p.GenShare(x.in.shares[i], outKeys.shares[i], m.logBound, ct, crp, tf, &shares[i])
+			} else {
+				err = mpckks.RefreshProtocol{MaskedLinearTransformationProtocol: p}.GenShare(x.in.shares[i], m.logBound, ct, crp, &shares[i])
+			}
+			if err != nil {
+				return h.Failf("C16:mpckks:"+c.Mode+":GenShare:error", "%v", err)
+			}
+		}
+		if !ct.Equal(ctOrig) {
+			return h.Failf("C16:mpckks:"+c.Mode+":GenShare:input-modified", "GenShare modified the input ciphertext")
+		}
+		if !crp.Value.Equal(crpSnap) || !x.in.shares[0].Value.Q.Equal(skSnap) || !outKeys.shares[0].Value.Q.Equal(skOutSnap) {
+			return h.Failf("C16:mpckks:"+c.Mode+":GenShare:input-modified", "GenShare modified the CRP or a secret key")
+		}
+
+		// smudging lower bound on refresh shares (see the mpbgv twin): when the ciphertext scale equals the default scale
+		// the rescaled mask is the mask itself and cancels between the two halves of an identity-transform share.
+		if r.first && !otherParams && c.ScaleMul == 1 {
+			lc := r.levelE
+			if r.levelO < lc {
+				lc = r.levelO
+			}
+			ringC := params.RingQ().AtLevel(lc)
+			residual := func(i int, sh multiparty.RefreshShare) []*big.Int {
+				q := ringC.NewPoly()
+				ringC.Add(sh.EncToShareShare.Value, sh.ShareToEncShare.Value, q)
+				ringC.MulCoeffsMontgomeryThenSub(ct.Value[1], x.in.shares[i].Value.Q, q)
+				ringC.MulCoeffsMontgomeryThenAdd(crp.Value, outKeys.shares[i].Value.Q, q)
+				ringC.INTT(q, q)
+				ringC.Reduce(q, q)
+				return centered(ringC, q)
+			}
+			var pools smudgePools
+			pools.off = !statsCase(c.Seed)
+			collect := func(k int, v []*big.Int) error {
+				if infNorm(v).Cmp(bigF(2*x.bParty)) > 0 {
+					return h.Failf("C16:mpckks:"+c.Mode+":GenShare:noise-above-bound", "refresh-share noise 2^%.1f exceeds the hard bound %g (sigma=%g)", log2Big(infNorm(v)), 2*x.bParty, c.Sigma)
+				}
+				pools.add(k, v)
+				return nil
+			}
+			if !isT {
+				for i := range shares {
+					k := 1
+					if i == 0 || !c.Shallow {
+						k = 0
+					}
+					if err := collect(k, residual(i, shares[i])); err != nil {
+						return err
+					}
+				}
+			}
+			mC := mltp0.ShallowCopy()
+			mCC := mC.ShallowCopy()
+			for k := 0; pools.short(0) || pools.short(1); k++ {
+				px, kc := mltp0, 0
+				if !pools.short(0) {
+					px, kc = mC, 1
+					if k%2 == 1 {
+						px = mCC
+					}
+				}
+				sh := px.AllocateShare(r.levelE, r.levelO)
+				if err := px.GenShare(x.in.shares[0], outKeys.shares[0], m.logBound, ct, crp, nil, &sh); err != nil {
+					return h.Failf("C16:mpckks:"+c.Mode+":GenShare:error", "%v", err)
+				}
+				if err := collect(kc, residual(0, sh)); err != nil {
 					return err
 				}
 			}
-		}
-		mC := mltp0.ShallowCopy()
-		mCC := mC.ShallowCopy()
-		for k := 0; pools.short(0) || pools.short(1); k++ {
-			px, kc := mltp0, 0
-			if !pools.short(0) {
-				px, kc = mC, 1
-				if k%2 == 1 {
-					px = mCC
-				}
-			}
-			sh := px.AllocateShare(c.LevelE, c.LevelO)
-			if err := px.GenShare(x.in.shares[0], outKeys.shares[0], x.logBound, ct, crp, nil, &sh); err != nil {
-				return h.Failf("C16:mpckks:"+c.Mode+":GenShare:error", "%v", err)
-			}
-			if err := collect(kc, residual(0, sh)); err != nil {
+			if err := pools.check(c.Sigma, math.Sqrt2, "C16:mpckks:"+c.Mode+":GenShare:smudging-too-small", rec); err != nil {
 				return err
 			}
 		}
-		if err := pools.check(c.Sigma, math.Sqrt2, "C16:mpckks:"+c.Mode+":GenShare:smudging-too-small", rec); err != nil {
-			return err
-		}
-	}
 
-	copyShare := func(s multiparty.RefreshShare) multiparty.RefreshShare {
-		return multiparty.RefreshShare{EncToShareShare: multiparty.KeySwitchShare{Value: *s.EncToShareShare.Value.CopyNew()},
-			ShareToEncShare: multiparty.KeySwitchShare{Value: *s.ShareToEncShare.Value.CopyNew()}, MetaData: s.MetaData}
-	}
-	ref := copyShare(shares[0])
-	for i := 1; i < n; i++ {
-		if err := mltp0.AggregateShares(&ref, &shares[i], &ref); err != nil {
+		copyShare := func(s multiparty.RefreshShare) multiparty.RefreshShare {
+			return multiparty.RefreshShare{EncToShareShare: multiparty.KeySwitchShare{Value: *s.EncToShareShare.Value.CopyNew()},
+				ShareToEncShare: multiparty.KeySwitchShare{Value: *s.ShareToEncShare.Value.CopyNew()}, MetaData: s.MetaData}
+		}
+		ref := copyShare(shares[0])
+		for i := 1; i < n; i++ {
+			if err := mltp0.AggregateShares(&ref, &shares[i], &ref); err != nil {
+				return h.Failf("C16:mpckks:"+c.Mode+":AggregateShares:error", "%v", err)
+			}
+		}
+		agg, err := fold(shares, r.merges, func() multiparty.RefreshShare { return mltp0.AllocateShare(r.levelE, r.levelO) },
+			func(a, b multiparty.RefreshShare, o *multiparty.RefreshShare) error { return mltp0.AggregateShares(&a, &b, o) })
+		if err != nil {
 			return h.Failf("C16:mpckks:"+c.Mode+":AggregateShares:error", "%v", err)
 		}
-	}
-	agg, err := fold(shares, c.Merges, func() multiparty.RefreshShare { return mltp0.AllocateShare(c.LevelE, c.LevelO) },
-		func(a, b multiparty.RefreshShare, o *multiparty.RefreshShare) error { return mltp0.AggregateShares(&a, &b, o) })
-	if err != nil {
-		return h.Failf("C16:mpckks:"+c.Mode+":AggregateShares:error", "%v", err)
-	}
-	if !agg.MetaData.Equal(ct.MetaData) {
-		key := "C16:mpckks:AggregateShares:metadata-not-propagated"
-		scratch := ckks.NewCiphertext(params, 1, c.LevelO)
-		terr := mltp0.Transform(ct.CopyNew(), tf, crp, agg, scratch)
-		msg := fmt.Sprintf("RefreshShare aggregated into a freshly allocated share has MetaData %+v instead of the one recorded by GenShare; Transform on it returns: %v", agg.MetaData, terr)
-		if rec.Known(key, msg) {
-			rec.Class("known=aggregate-metadata")
-			agg.MetaData = *ct.MetaData
-		} else {
-			return h.Failf(key, "%s", msg)
+		if !agg.MetaData.Equal(ct.MetaData) {
+			key := "C16:mpckks:AggregateShares:metadata-not-propagated"
+			scratch := ckks.NewCiphertext(paramsOut, 1, r.levelO)
+			terr := mltp0.Transform(ct.CopyNew(), tf, crp, agg, scratch)
+			msg := fmt.Sprintf("RefreshShare aggregated into a freshly allocated share has MetaData %+v instead of the one recorded by GenShare; Transform on it returns: %v", agg.MetaData, terr)
+			if rec.Known(key, msg) {
+				rec.Class("known=aggregate-metadata")
+				agg.MetaData = *ct.MetaData
+			} else {
+				return h.Failf(key, "%s", msg)
+			}
 		}
-	}
-	ringE, ringO := params.RingQ().AtLevel(c.LevelE), params.RingQ().AtLevel(c.LevelO)
-	if !congruent(ringE, agg.EncToShareShare.Value, ref.EncToShareShare.Value) || !congruent(ringO, agg.ShareToEncShare.Value, ref.ShareToEncShare.Value) {
-		return h.Failf("C16:mpckks:"+c.Mode+":AggregateShares:order-dependent", "aggregate depends on the schedule %v", c.Merges)
+		ringE, ringO := params.RingQ().AtLevel(r.levelE), paramsOut.RingQ().AtLevel(r.levelO)
+		if !congruent(ringE, agg.EncToShareShare.Value, ref.EncToShareShare.Value) || !congruent(ringO, agg.ShareToEncShare.Value, ref.ShareToEncShare.Value) {
+			return h.Failf("C16:mpckks:"+c.Mode+":AggregateShares:order-dependent", "aggregate depends on the schedule %v", r.merges)
+		}
+
+		var out *rlwe.Ciphertext
+		rng := h.NewSplitMix(r.seed ^ 0x5bd1e995)
+		switch {
+		case r.outMode == 0:
+			out = ct
+		case prevOut != nil && prevOut != ct:
+			out = prevOut // receiver with a history: the output of the previous round
+			rec.Class("receiver=previous-output")
+		case r.outMode == 1:
+			out = ckks.NewCiphertext(paramsOut, 1, rng.Intn(paramsOut.MaxLevel()+1))
+			*out.MetaData = *ct.MetaData
+		default:
+			out = ckks.NewCiphertext(paramsOut, 1, rng.Intn(paramsOut.MaxLevel()+1))
+		}
+		aggSnap := copyShare(agg)
+		if isT {
+			err = mltp0.Transform(ct, tf, crp, agg, out)
+		} else {
+			err = rfp0.Finalize(ct, crp, agg, out)
+		}
+		if err != nil {
+			return h.Failf("C16:mpckks:"+c.Mode+":Transform:error", "%v", err)
+		}
+		if !crp.Value.Equal(crpSnap) || !agg.EncToShareShare.Value.Equal(&aggSnap.EncToShareShare.Value) || !agg.ShareToEncShare.Value.Equal(&aggSnap.ShareToEncShare.Value) {
+			return h.Failf("C16:mpckks:"+c.Mode+":Transform:input-modified", "Transform modified the CRP or the aggregated share")
+		}
+		if out != ct && !ct.Equal(ctOrig) {
+			return h.Failf("C16:mpckks:"+c.Mode+":Transform:input-modified", "Transform into another ciphertext modified the input ciphertext")
+		}
+		if out.Level() != r.levelO {
+			return h.Failf("C16:mpckks:"+c.Mode+":Transform:output-level", "output level %d, requested (CRP / share) level %d", out.Level(), r.levelO)
+		}
+		for i := range out.Value {
+			if out.Value[i].N() != paramsOut.N() {
+				return h.Failf("C16:mpckks:"+c.Mode+":Transform:output-degree", "output polynomial %d has %d coefficients, output parameters have N=%d", i, out.Value[i].N(), paramsOut.N())
+			}
+		}
+		ds := paramsOut.DefaultScale()
+		if out.Scale.Cmp(ds) != 0 {
+			return h.Failf("C16:mpckks:"+c.Mode+":Transform:output-scale", "output scale 2^%.3f, documented: default scale of the output parameters 2^%.3f (input scale 2^%.3f)", out.LogScale(), ds.Log2(), log2Big(m.scale))
+		}
+		key := fmt.Sprintf("C16:mpckks:%s:wrong-message:decode=%v,encode=%v", c.Mode, c.Decode, c.Encode)
+		if err := x.checkOutputP(paramsOut, gapOut, key, out, outKeys.ideal, want, tol, tolOff, rec); err != nil {
+			return err
+		}
+		sameKind := tf == nil || (c.Decode && c.Encode)
+		if sameKind {
+			// the output is again a batched ciphertext: its own metadata must describe it
+			if !out.IsBatched || out.LogDimensions != ctOrig.LogDimensions || !out.IsNTT {
+				return h.Failf("C16:mpckks:"+c.Mode+":Transform:output-metadata", "output metadata %+v, input %+v", out.MetaData, ctOrig.MetaData)
+			}
+			wantV := make([]*bignum.Complex, slots)
+			for i := range wantV {
+				wantV[i] = m.values[i].Clone()
+			}
+			if tf != nil {
+				f.apply(wantV)
+			}
+			have := make([]*bignum.Complex, slots)
+			if err := ckks.NewEncoder(paramsOut, 256).Decode(rlwe.NewDecryptor(paramsOut, outKeys.ideal).DecryptNew(out), have); err != nil {
+				return h.Failf("C16:mpckks:"+c.Mode+":decode-error", "%v", err)
+			}
+			Sf, _ := S.Float64()
+			tolSlot := (tol+1)*float64(x.dslots)/Df + 2*float64(x.dslots)*float64(x.dslots)/Sf + 1e-12
+			for i := range have {
+				dr, _ := new(big.Float).Sub(have[i][0], wantV[i][0]).Float64()
+				di, _ := new(big.Float).Sub(have[i][1], wantV[i][1]).Float64()
+				if ci {
+					di = 0
+				}
+				if math.Abs(dr) > tolSlot || math.Abs(di) > tolSlot {
+					return h.Failf("C16:mpckks:"+c.Mode+":wrong-values", "slot %d decodes to %v, expected %v (tolerance %.3g, scale in 2^%.2f, default out 2^%d)", i, have[i].Complex128(), wantV[i].Complex128(), tolSlot, log2Big(m.scale), oSpec.LogScale)
+				}
+			}
+		}
+		prevOut = out
+		return nil
 	}
 
-	var out *rlwe.Ciphertext
-	rng := h.NewSplitMix(c.Seed ^ 0x5bd1e995)
-	switch c.OutMode {
-	case 0:
-		out = ct
-	case 1:
-		out = ckks.NewCiphertext(params, 1, rng.Intn(params.MaxLevel()+1))
-		*out.MetaData = *ct.MetaData
-	default:
-		out = ckks.NewCiphertext(params, 1, rng.Intn(params.MaxLevel()+1))
-	}
-	if isT {
-		err = mltp0.Transform(ct, tf, crp, agg, out)
-	} else {
-		err = rfp0.Finalize(ct, crp, agg, out)
-	}
-	if err != nil {
-		return h.Failf("C16:mpckks:"+c.Mode+":Transform:error", "%v", err)
-	}
-	if out.Level() != c.LevelO {
-		return h.Failf("C16:mpckks:"+c.Mode+":Transform:output-level", "output level %d, requested (CRP / share) level %d", out.Level(), c.LevelO)
-	}
-	ds := params.DefaultScale()
-	if out.Scale.Cmp(ds) != 0 {
-		return h.Failf("C16:mpckks:"+c.Mode+":Transform:output-scale", "output scale 2^%.3f, documented: default scale 2^%.3f (input scale 2^%.3f)", out.LogScale(), ds.Log2(), log2Big(x.scale))
-	}
-	if err := x.checkOutput(fmt.Sprintf("C16:mpckks:%s:wrong-message:decode=%v,encode=%v", c.Mode, c.Decode, c.Encode), out, outKeys.ideal, want, tol, tolOff, rec); err != nil {
+	first := &ckksMsg{ct: x.ct, a: x.a, values: x.values, scale: x.scale, logBound: x.logBound, levelIn: c.LevelIn}
+	if err := round(ckksRound{m: first, levelE: c.LevelE, levelO: c.LevelO, merges: c.Merges, outMode: c.OutMode, seed: c.Seed, first: true}); err != nil {
 		return err
 	}
-	sameKind := tf == nil || (c.Decode && c.Encode)
-	if sameKind {
-		// the output is again a batched ciphertext: its own metadata must describe it
-		if !out.IsBatched || out.LogDimensions != ctOrig.LogDimensions || !out.IsNTT {
-			return h.Failf("C16:mpckks:"+c.Mode+":Transform:output-metadata", "output metadata %+v, input %+v", out.MetaData, ctOrig.MetaData)
-		}
-		wantV := make([]*bignum.Complex, slots)
-		for i := range wantV {
-			wantV[i] = x.values[i].Clone()
-		}
-		if tf != nil {
-			f.apply(wantV)
-		}
-		have := make([]*bignum.Complex, slots)
-		if err := ckks.NewEncoder(params, 256).Decode(rlwe.NewDecryptor(params, outKeys.ideal).DecryptNew(out), have); err != nil {
-			return h.Failf("C16:mpckks:"+c.Mode+":decode-error", "%v", err)
-		}
-		Df, _ := D.Float64()
-		Sf, _ := S.Float64()
-		tolSlot := (tol+1)*float64(x.dslots)/Df + 2*float64(x.dslots)*float64(x.dslots)/Sf + 1e-12
-		for i := range have {
-			dr, _ := new(big.Float).Sub(have[i][0], wantV[i][0]).Float64()
-			di, _ := new(big.Float).Sub(have[i][1], wantV[i][1]).Float64()
-			if ci {
-				di = 0
+	firstTol := lastTol
+	second := false
+	if s := c.Second; s != nil && validMerges(s.Merges, n) && s.ScaleMul >= 1 && s.ScaleMul < 2 && s.LevelIn >= 0 && s.LevelIn < len(c.Params.Q) &&
+		s.LevelE >= 0 && s.LevelE <= s.LevelIn && s.LevelO >= 0 && s.LevelO < len(oSpec.Q) && s.OutMode >= 0 && s.OutMode <= 2 {
+		sc := scaleIntOf(c.Params.LogScale, s.ScaleMul)
+		minLevel, logBound, ok := mpckks.GetMinimumLevelForRefresh(c.Lambda, rlwe.NewScale(sc), n, params.Q())
+		mo := minOutLevelFor(c.Lambda, sc, n, c.LogSlots, oSpec.Q, oSpec.LogScale, true)
+		okE := ok && s.LevelE >= minLevel && chainBits(c.Params.Q, s.LevelE) >= needBitsE2S(c.Lambda, sc, n)+lambdaHeadroom(c.Lambda)-1e-9
+		if okE && mo >= 0 && s.LevelO >= mo {
+			m2, err := x.newMsg(s.Seed, s.LevelIn, sc, s.Pattern, c.Batched)
+			if err != nil {
+				return err
 			}
-			if math.Abs(dr) > tolSlot || math.Abs(di) > tolSlot {
-				return h.Failf("C16:mpckks:"+c.Mode+":wrong-values", "slot %d decodes to %v, expected %v (tolerance %.3g, scale in 2^%.2f, default 2^%d)", i, have[i].Complex128(), wantV[i].Complex128(), tolSlot, log2Big(x.scale), c.Params.LogScale)
+			if m2 != nil {
+				m2.logBound = logBound
+				rec.Class("second-ciphertext-same-instances")
+				second = true
+				if err := round(ckksRound{m: m2, levelE: s.LevelE, levelO: s.LevelO, merges: s.Merges, outMode: s.OutMode, seed: s.Seed}); err != nil {
+					if fe, ok := err.(*h.Failure); ok {
+						fe.Msg = "[second ciphertext through the same protocol instances] " + fe.Msg
+					}
+					return err
+				}
 			}
 		}
 	}
 
 	nt := n >= 2 && !canonicalMerges(c.Merges, n)
 	flags := tf != nil && (!c.Decode || !c.Encode)
-	Df, _ := D.Float64()
-	if (nt || c.LevelIn < params.MaxLevel() || c.LevelO < params.MaxLevel() || flags) && tol*16 < Df {
-		rec.NonTrivial(x.desc("ckks-"+c.Mode, nt) + fmt.Sprintf("|d=%v,e=%v,b=%v|f=%s|newKey=%v|out=%d|prec+%d", c.Decode, c.Encode, c.Batched, c.FKind, c.NewKey, c.OutMode, c.PrecExtra))
+	if (nt || c.LevelIn < params.MaxLevel() || c.LevelO < paramsOut.MaxLevel() || flags || second || otherParams) && firstTol*16 < Df {
+		rec.NonTrivial(x.desc("ckks-"+c.Mode, nt) + fmt.Sprintf("|d=%v,e=%v,b=%v|f=%s|newKey=%v|out=%d|prec+%d|second=%v|outN%+d|wp=%v", c.Decode, c.Encode, c.Batched, c.FKind, c.NewKey, c.OutMode, c.PrecExtra, second,
+			oSpec.LogN-c.Params.LogN, c.WithParams && otherParams))
 	}
 	return nil
 }
 
-var propCKKSRefresh = h.NewProp("TestPropCKKSRefresh", h.Budget{Quick: 600, Thorough: 8000}, genCKKSRefresh, runCKKSRefresh)
+var propCKKSRefresh = h.NewProp("TestPropCKKSRefresh", h.Budget{Quick: 600, Thorough: 3000}, genCKKSRefresh, runCKKSRefresh)
 
 func TestPropCKKSRefresh(t *testing.T) { propCKKSRefresh.Check(t) }
